@@ -75,14 +75,18 @@ def r3_storage(ctx):
     ini = ctx.body(SM + "::init", "C07.R3")
     pop = ctx.body(SM + "::pop", "C07.R3")
     get = ctx.body(SM + "::get", "C07.R3")
-    pb = _calls_on_field(prog, ini, SM + ".order", re.compile(r"VecDeque::push_back$"))
-    pf = _calls_on_field(prog, ini, SM + ".order", re.compile(r"VecDeque::push_front$"))
+    # order-preserving queue discipline, whatever the container: append at the back; take the front with an operation that keeps the rest in order
+    pb = _calls_on_field(prog, ini, SM + ".order", re.compile(r"(VecDeque::push_back|Vec::push)$"))
+    pf = _calls_on_field(prog, ini, SM + ".order", re.compile(r"(VecDeque::push_front|Vec::insert|VecDeque::insert)$"))
     ctx.ob("C07.R3", "init-appends", bool(pb) and not pf, "StorageMap::init appends the new key at the back of the destruction order", loc=ini.loc())
     ppf = _calls_on_field(prog, pop, SM + ".order", re.compile(r"VecDeque::pop_front$"))
-    ppb = _calls_on_field(prog, pop, SM + ".order", re.compile(r"VecDeque::pop_back$"))
-    ctx.ob("C07.R3", "pop-takes-front", bool(ppf) and not ppb,
-           "StorageMap::pop destroys in initialisation order (pop_front)" if bool(ppf) and not ppb else
-           "StorageMap::pop does not take the oldest key: destructors would not run in initialisation order", loc=pop.loc())
+    rm0 = [(s, t) for s, t in _calls_on_field(prog, pop, SM + ".order", re.compile(r"(Vec|VecDeque)::remove$")) if kinds.operand_const(pop, t["args"][1]) == 0]
+    reorder = _calls_on_field(prog, pop, SM + ".order", re.compile(r"(VecDeque::pop_back|Vec::pop|swap_remove|swap_remove_back|swap_remove_front|Vec::swap|VecDeque::swap|sort|reverse|rotate_\w+)$"))
+    ok_front = bool(ppf or rm0) and not reorder
+    ctx.ob("C07.R3", "pop-takes-front", ok_front,
+           "StorageMap::pop destroys in initialisation order (takes the front and keeps the rest in order)" if ok_front else
+           "StorageMap::pop does not take the oldest key with an order-preserving operation%s: destructors would not run in initialisation order"
+           % (" (%s)" % sorted({c.split("::")[-1] for s, t in reorder for c in pop.callees_of_call(t, passed=False)})[0] if reorder else ""), loc=pop.loc())
     tk = [s for s, t in pop.calls() if any(c.endswith("Option::take") for c in pop.callees_of_call(t, passed=False))]
     rm = _calls_on_field(prog, pop, SM + ".locals", re.compile(r"HashMap::remove$"))
     ctx.ob("C07.R3", "pop-leaves-tombstone", bool(tk) and not rm,
